@@ -31,22 +31,205 @@ Qed.
 Lemma step_putchunk w s tid data s1 out :
   step w s (OPutChunk tid data) = (s1, out) ->
   match thr_get (s_threads s) tid with
-  | Some t =>
-      (exists o i, put_thread w o i t /\ exists s', same s s' /\
+  | Some (TPut o i wr acc) =>
+      exists s', same s s' /\
         ((s1 = thr_rm s' tid /\ out = Done cInvalidArgument []) \/
-         (exists t', put_thread w o i t' /\ s1 = thr_set s' tid t' /\ out = Parked)))
-      \/ (s1 = s /\ out = Bad)
-  | None => s1 = s /\ out = Bad
+         (exists acc', s1 = thr_set s' tid (TPut o i wr acc') /\ out = Parked))
+  | Some (TPutExisting o i acc) =>
+      (s1 = thr_rm s tid /\ out = Done cInvalidArgument []) \/
+      (exists acc', s1 = thr_set s tid (TPutExisting o i acc') /\ out = Parked)
+  | _ => s1 = s /\ out = Bad
   end.
 Proof.
   unfold step. cbn [may_take_refresh_lock is_corrupt andb].
   destruct (thr_get (s_threads s) tid) as [t|] eqn:ET; [|intros H; injection H as <- <-; auto].
-  destruct t as [o i wr acc|o i acc| | |]; try (intros H; injection H as <- <-; right; auto).
-  - left. exists o, i. split; [left; eauto|].
-    destruct (N.ltb (wr_size wr) (N.of_nat (length acc + length data))).
+  destruct t as [o i wr acc|o i acc| | |]; try (intros H; injection H as <- <-; auto).
+  - destruct (N.ltb (wr_size wr) (N.of_nat (length acc + length data))); intros H.
     + destruct (finalize (w_cfg w) s wr false) as [r s'] eqn:EF. apply finalize_spec in EF. destruct EF as [S1 _].
       injection H as <- <-. exists s'. split; [exact S1|]. left. auto.
     + injection H as <- <-. eexists. split; [apply same_write_block|]. right.
-      eexists. split; [left; eauto|]. split; reflexivity.
-  - intros H. left. exists o, i. split; [right; eauto|]. admit.
-Admitted.
+      eexists. split; reflexivity.
+  - destruct (N.ltb (osize w o) (N.of_nat (length acc + length data))); intros H; injection H as <- <-.
+    + left; auto.
+    + right. eexists. split; reflexivity.
+Qed.
+
+Lemma step_putend w s tid err s1 out :
+  step w s (OPutEnd tid err) = (s1, out) ->
+  match thr_get (s_threads s) tid with
+  | Some (TPut o i wr acc) =>
+      exists s' code, s1 = thr_rm s' tid /\ out = Done code [] /\
+        ext (fun k => code = 0%Z /\ In k (finalize_keys w o i)) s s'
+  | Some (TPutExisting o i acc) =>
+      exists s' code, s1 = thr_rm s' tid /\ out = Done code [] /\
+        ext (fun k => code = 0%Z /\ k = (o, S i)) s s'
+  | _ => s1 = s /\ out = Bad
+  end.
+Proof.
+  unfold step. cbn [may_take_refresh_lock is_corrupt andb].
+  destruct (thr_get (s_threads s) tid) as [t|] eqn:ET; [|intros H; injection H as <- <-; auto].
+  destruct t as [o i wr acc|o i acc| | |]; try (intros H; injection H as <- <-; auto).
+  - match goal with |- context [finalize ?c ?x ?wr ?okk] => destruct (finalize c x wr okk) as [r s'] eqn:EF end.
+    apply finalize_spec in EF. destruct EF as [S1 _].
+    destruct r as [l|e]; intros H; injection H as <- <-.
+    + do 2 eexists. split; [reflexivity|]. split; [reflexivity|].
+      eapply ext_same_l; [exact S1|]. eapply ext_weaken; [|apply ext_index_put_all].
+      intros k Hk. split; [reflexivity|exact Hk].
+    + do 2 eexists. split; [reflexivity|]. split; [reflexivity|]. apply same_ext. exact S1.
+  - destruct (negb (Z.eqb err 0)).
+    { intros H; injection H as <- <-. do 2 eexists. split; [reflexivity|]. split; [reflexivity|apply ext_refl]. }
+    destruct (negb (bytes_eqb acc (content w o))).
+    { intros H; injection H as <- <-. do 2 eexists. split; [reflexivity|]. split; [reflexivity|apply ext_refl]. }
+    destruct (index_get s (canonical_key o)); intros H; injection H as <- <-.
+    + do 2 eexists. split; [reflexivity|]. split; [reflexivity|].
+      eapply ext_weaken; [|apply ext_index_put]. intros k ->. split; reflexivity.
+    + do 2 eexists. split; [reflexivity|]. split; [reflexivity|apply ext_refl].
+Qed.
+
+Lemma step_getopen w up s tid o i s1 out :
+  icov w up s ->
+  step w s (OGetOpen tid o i) = (s1, out) ->
+  (out = Bad /\ s1 = s) \/
+  (thr_get (s_threads s) tid = None /\
+   exists s', s_threads s' = s_threads s /\ icov w up s' /\
+     ((exists e, out = Done e [] /\ s1 = s') \/
+      (exists t, out = Parked /\ s1 = thr_set s' tid t /\
+                 is_tget_of o (kcov w up) t /\ visible w up o i = true))).
+Proof.
+  intros IC. unfold step. cbn [may_take_refresh_lock is_corrupt andb].
+  destruct (thr_get (s_threads s) tid) eqn:ET.
+  { intros H; injection H as <- <-. left; split; reflexivity. }
+  destruct (get_open w s o i) as [r s'] eqn:EP. apply (get_open_spec w up) in EP; [|exact IC].
+  destruct EP as (T1 & I1 & R).
+  right. split; [reflexivity|]. exists s'. split; [exact T1|]. split; [exact I1|].
+  destruct r as [t|e]; injection H as <- <-.
+  - right. exists t. destruct R. auto.
+  - left. eauto.
+Qed.
+
+Lemma step_getconsume w s tid s1 out :
+  step w s (OGetConsume tid) = (s1, out) ->
+  match thr_get (s_threads s) tid with
+  | Some (TGet o uid l rf fk) =>
+      exists s' code bytes, s1 = thr_rm s' tid /\ out = Done code bytes /\
+        ext (fun k => In k fk) s s' /\
+        (c_validate (w_cfg w) = true -> code = cOK -> bytes = content w o)
+  | _ => s1 = s /\ out = Bad
+  end.
+Proof.
+  unfold step. cbn [may_take_refresh_lock is_corrupt andb].
+  destruct (thr_get (s_threads s) tid) as [t|] eqn:ET; [|intros H; injection H as <- <-; auto].
+  destruct t as [| |o uid l rf fk| |]; try (intros H; injection H as <- <-; auto).
+  destruct (get_consume w s o uid l rf fk) as [[code bytes] s'] eqn:EG.
+  apply get_consume_spec in EG. destruct EG as [X V].
+  intros H; injection H as <- <-. exists s', code, bytes. auto.
+Qed.
+
+Lemma step_findmissing w up s ds s1 out :
+  icov w up s ->
+  step w s (OFindMissing ds) = (s1, out) ->
+  s_threads s1 = s_threads s /\ icov w up s1 /\
+  (out = Bad \/
+   exists code ml, out = Missing code ml /\
+     (code = 0%Z -> forall pos o i, In (pos, (o, i)) (enumerate 0 ds) -> In pos ml \/ visible w up o i = true)).
+Proof.
+  intros IC. unfold step. cbn [may_take_refresh_lock is_corrupt andb].
+  destruct (refresh_lock_held s).
+  { intros H; injection H as <- <-. auto. }
+  destruct (find_missing w s ds) as [m s'] eqn:EF. apply (find_missing_spec w up) in EF; [|exact IC].
+  destruct EF as (T1 & I1 & R).
+  destruct m as [ml|e]; intros H; injection H as <- <-; (split; [exact T1|]); (split; [exact I1|]); right.
+  - do 2 eexists. split; [reflexivity|]. intros _ pos o i Hin.
+    destruct (R pos o i Hin) as [X|X]; [left; apply In_sort_nat; exact X|right; exact X].
+  - do 2 eexists. split; [reflexivity|]. intros E. contradiction.
+Qed.
+
+Lemma step_corrupt w s r off len s1 out :
+  step w s (OCorrupt r off len) = (s1, out) ->
+  same s s1 /\ s_negs s1 = s_negs s /\ (out = Bad \/ out = Done cOK []).
+Proof.
+  unfold step. cbn [may_take_refresh_lock is_corrupt andb].
+  destruct (reader_open s).
+  { intros H; injection H as <- <-. auto. }
+  destruct (dev_get (s_dev s) r); intros H; injection H as <- <-; (split; [|auto]).
+  - apply same_refl.
+  - split; reflexivity.
+Qed.
+
+Lemma flat_get_visible w up s o i l :
+  c_hier (w_cfg w) = false -> icov w up s -> index_get s (flat_key (w_cfg w) o i) = Some l ->
+  kcov w up (flat_key (w_cfg w) o i) /\ visible w up o i = true.
+Proof.
+  intros Eh IC G. assert (K : kcov w up (flat_key (w_cfg w) o i)) by (eapply icov_get; eauto).
+  split; [exact K|]. eapply kcov_visible; [|exact K]. unfold lookup_keys. rewrite Eh. left; reflexivity.
+Qed.
+
+Definition gfc_thread (w : world) (up : list (nat * nat)) (p i : nat) (t : thread) : Prop :=
+  (c_hier (w_cfg w) = true /\
+   ((exists e, t = TGfcErr e /\ e <> 0%Z) \/ (is_tget_of p (kcov w up) t /\ visible w up p i = true))) \/
+  (c_hier (w_cfg w) = false /\
+   exists uid pl rf, t = TGfc p i uid pl rf (flat_key (w_cfg w) p i) /\
+                     kcov w up (flat_key (w_cfg w) p i) /\ visible w up p i = true).
+
+Lemma step_gfcstart w up s tid p i ch s1 out :
+  icov w up s ->
+  step w s (OGfcStart tid p i ch) = (s1, out) ->
+  (out = Bad /\ s1 = s) \/
+  (thr_get (s_threads s) tid = None /\
+   exists s', s_threads s' = s_threads s /\ icov w up s' /\
+     ((exists code bytes, out = Done code bytes /\ s1 = s' /\ c_hier (w_cfg w) = false /\
+         (code = cOK -> visible w up ch i = true /\ (c_validate (w_cfg w) = true -> bytes = content w ch))) \/
+      (exists t, out = Parked /\ s1 = thr_set s' tid t /\ gfc_thread w up p i t))).
+Proof.
+  intros IC. unfold step. cbn [may_take_refresh_lock is_corrupt andb].
+  destruct (refresh_lock_held s).
+  { intros H; injection H as <- <-. auto. }
+  destruct (thr_get (s_threads s) tid) eqn:ET.
+  { intros H; injection H as <- <-. auto. }
+  destruct (c_hier (w_cfg w)) eqn:Eh.
+  - destruct (get_open w s p i) as [r s'] eqn:EP. apply (get_open_spec w up) in EP; [|exact IC].
+    destruct EP as (T1 & I1 & R).
+    destruct r as [t|e].
+    + destruct R as [R V]. pose proof R as R'. destruct R' as (uid & l & rf & fk & -> & FK).
+      intros H; injection H as <- <-. right. split; [reflexivity|]. exists s'. split; [exact T1|]. split; [exact I1|].
+      right. eexists. split; [reflexivity|]. split; [reflexivity|]. left. split; [reflexivity|]. right. auto.
+    + intros H; injection H as <- <-. right. split; [reflexivity|]. exists s'. split; [exact T1|]. split; [exact I1|].
+      right. eexists. split; [reflexivity|]. split; [reflexivity|]. left. split; [reflexivity|]. left. eauto.
+  - destruct (index_get s (flat_key (w_cfg w) p i)) as [pl|] eqn:EG.
+    2:{ intros H; injection H as <- <-. right. split; [reflexivity|]. exists s. split; [reflexivity|]. split; [exact IC|].
+        left. do 2 eexists. split; [reflexivity|]. split; [reflexivity|]. split; [reflexivity|]. discriminate. }
+    destruct (flat_get_visible _ _ _ _ _ _ Eh IC EG) as [KP VP].
+    match goal with |- context [match ?d with Some (cl, uid) => _ | None => _ end] => destruct d as [[cl uid]|] eqn:ED end.
+    + assert (GC : index_get s (flat_key (w_cfg w) ch i) = Some cl).
+      { destruct (needs_refresh s pl); [discriminate|].
+        destruct (index_get s (flat_key (w_cfg w) ch i)) as [cl'|]; [|discriminate].
+        destruct (block_of_loc s cl'); [|discriminate]. injection ED as <- _. reflexivity. }
+      destruct (flat_get_visible _ _ _ _ _ _ Eh IC GC) as [KC VC].
+      destruct (get_consume w (pin s uid) ch uid cl None []) as [[code bytes] s2] eqn:EC.
+      apply get_consume_spec in EC. destruct EC as [X V].
+      assert (X' : ext (fun k => In k []) s s2) by (eapply ext_same_l; [apply same_pin|exact X]).
+      intros H; injection H as <- <-. right. split; [reflexivity|]. exists s2. split; [apply X'|].
+      split; [eapply ext_icov; [exact X'|exact IC|intros k []]|].
+      left. exists code, bytes. split; [reflexivity|]. split; [reflexivity|]. split; [reflexivity|].
+      intros Hc. split; [exact VC|]. intros Hv. apply V; assumption.
+    + destruct (block_of_loc s pl) as [b|].
+      2:{ intros H; injection H as <- <-. auto. }
+      pose proof (same_pin s (b_uid b)) as S1.
+      destruct (needs_refresh s pl).
+      * destruct (ocn_put (w_cfg w) (pin s (b_uid b)) (l_size pl)) as [r2 s2] eqn:E2.
+        apply ocn_put_spec in E2. destruct E2 as [S2 N2]. pose proof (same_trans _ _ _ S1 S2) as S2'.
+        destruct r2 as [wr|e2].
+        -- match goal with |- (thr_set ?s3 _ _, _) = _ -> _ => assert (S3 : same s s3) end.
+           { destruct (lockstep (w_cfg w)); [exact S2'|].
+             eapply same_trans; [exact S2'|]. eapply same_trans; [apply same_write_block|apply same_unpin]. }
+           intros H; injection H as <- <-. right. split; [reflexivity|]. eexists. split; [apply S3|].
+           split; [eapply same_icov; eauto|]. right. eexists. split; [reflexivity|]. split; [reflexivity|].
+           right. split; [reflexivity|]. do 3 eexists. split; [reflexivity|]. auto.
+        -- assert (S3 : same s (unpin (w_cfg w) s2 (b_uid b))) by (eapply same_trans; [exact S2'|apply same_unpin]).
+           intros H; injection H as <- <-. right. split; [reflexivity|]. eexists. split; [apply S3|].
+           split; [eapply same_icov; eauto|]. left. do 2 eexists. split; [reflexivity|]. split; [reflexivity|].
+           split; [reflexivity|]. intros Hc. exfalso. eapply N2; [reflexivity|exact Hc].
+      * intros H; injection H as <- <-. right. split; [reflexivity|]. eexists. split; [apply S1|].
+        split; [eapply same_icov; eauto|]. right. eexists. split; [reflexivity|]. split; [reflexivity|].
+        right. split; [reflexivity|]. do 3 eexists. split; [reflexivity|]. auto.
+Qed.
